@@ -516,6 +516,9 @@ func c14Isolation(r *core.Run, scheduled bool) {
 			if n := c.Flags.Get("description"); n != "" && !strings.Contains(sig.SigInfo, n) {
 				r.Failf("C14.mixed-up-response", "options/"+c.Mod, "signature does not carry this request's options (opus name %q, got %q): %s", n, sig.SigInfo, desc)
 			}
+			if tsMode && tsKey[keyTarget[rq.Key]] && c.Flags.Get("no-timestamp") == "" && rq.Start > caAt && !c.PGP && sig.X509Signature != nil && sig.X509Signature.CounterSignature == nil {
+				r.Failf("C14.wrong-result", "timestamp-omitted/"+c.Mod, "the key asks for a timestamp and the timestamp client can be built, yet the signature carries none: %s", desc)
+			}
 			r.Probe("verified-signature")
 		}
 	}
